@@ -516,6 +516,22 @@ func c04InputGoroutine(c *Ctx, info *types.Info) {
 		c.undecided("C04.b", fi.Name+"/input goroutine", fi.Decl.Pos(), "no `go func(){...}()` or `go <method>()` found in openTty")
 		return
 	}
+	// a thin wrapper (`go func() { vx.inputLoop() }()`): the body that runs is the callee's
+	for depth := 0; depth < 3 && litBody != nil && len(litBody.List) == 1; depth++ {
+		es, ok := litBody.List[0].(*ast.ExprStmt)
+		if !ok {
+			break
+		}
+		call, ok := unparen(es.X).(*ast.CallExpr)
+		if !ok {
+			break
+		}
+		cf := c.P.FuncOfObj(calleeOf(info, call))
+		if cf == nil || cf.Decl.Body == nil || cf.Pkg != fi.Pkg {
+			break
+		}
+		lit, litBody = cf.Decl, cf.Decl.Body
+	}
 	name := fi.Name + "$input"
 	// deferred recover handler calls Close before re-panicking
 	okDefer := false
